@@ -111,7 +111,9 @@ def run(ck, P):
               path=b[1] if b else None)
     for clause in ("undetermined", "undetermined-inv"):
         if clause in bad:
-            raise AnalysisBroken("push_evt: %s (%s)" % bad[clause])
+            # on the reference tree every path is decided by the table's atoms; an undecided path means the logic changed
+            ck.ob("C13.1-DECISION", pe.site("decided by table atoms"), False,
+                  "push_evt decides on conditions the decision table does not know: %s" % bad[clause][0][:300], path=bad[clause][1])
     # comparison operator of the size test: with batch.len == 0 (default) it must be a tautology for unsigned lengths
     sizecmp = [b.term["cond"] for b in pe.blocks.values() if b.term and b.term.get("cond") is not None and "batch.len" in S(b.term["cond"])]
     okop = len(sizecmp) == 1 and strip(sizecmp[0])["k"] == "bin" and strip(sizecmp[0])["op"] == ">=" and S(strip(sizecmp[0])["r"]) == "mod->batch.len"
